@@ -222,7 +222,9 @@ func (p *PacketOut) Len() (n uint16) {
 	for _, a := range p.Actions {
 		n += a.Len()
 	}
-	n += p.Data.Len()
+	if p.Data != nil {
+		n += p.Data.Len()
+	}
 	//if n < 72 { return 72 }
 	return
 }
